@@ -31,82 +31,38 @@ theorem C30_in_order (P : Parser) (w : World) (kgArg : Option String) (text : Li
   rcases specRun P ⟨w, kgArg.getD "default", [], none, none, [], []⟩ [] (logicalLines text) with ⟨st, tr⟩
   cases st <;> rfl
 
-/-! ### the `execute_program` wrapper -/
+/-! ### the `execute_program` wrapper (after the repair: authorization pre-pass over the logical lines;
+     fast path and session interception only for one-statement programs) -/
 
-/-- **C30, full statement for `Handler::execute_program`**: whatever the identity, session and target KG,
-    a program containing an unparsable statement is rejected and leaves the state untouched. -/
-def C30_statement : Prop :=
-  ∀ (P : Parser) (w : World) (rq : Req), hasSyntaxError P rq.text = true →
-    (execProgram P w rq).w = w ∧ isErr (execProgram P w rq).res = true
+/-- **C30 for `Handler::execute_program`** — whatever the identity, session and target KG, a program
+    containing an unparsable statement is rejected and leaves the state (KGs *and* sessions) untouched. -/
+theorem C30 (P : Parser) (w : World) (rq : Req) (h : hasSyntaxError P rq.text = true) :
+    (execProgram P w rq).w = w ∧ isErr (execProgram P w rq).res = true := by
+  unfold execProgram
+  cases identityOf w rq.user with
+  | none => simp [isErr]
+  | some role =>
+    simp only []
+    cases authorizeProgram P w role (some (startKgOf rq (sessOf w rq))) (logicalLines rq.text) with
+    | some e => simp [isErr]
+    | none =>
+      simp only [singleStmt_none P rq.text h]
+      have hf : fastPath w (sessOf w rq) none (startKgOf rq (sessOf w rq)) = none := by
+        unfold fastPath; rfl
+      rw [hf]
+      exact execRest_reject P w rq role (sessOf w rq) _ h
 
-/-- witness grammar: knows the one statement `m1(4)` (a session fact), rejects everything else -/
+/-- the former counterexample (`m1(4) // x⏎+m1(` with a session; witness of the repaired defect
+    class `session-intercept-before-validation`) is now rejected without effect -/
 def witP : Parser := fun k => if k = "m1(4)" then some ⟨.fact, .fact "m1" [.i64 4]⟩ else none
 def witW : World :=
   ⟨[⟨"_internal", [("users", [[strVal "adm", strVal "h", strVal "admin"]])], [], []⟩, ⟨"default", [], [], []⟩],
    [⟨"adm", "default", [], [], false⟩]⟩
-/-- `m1(4) // x⏎+m1(` sent with a session: `strip_inline_comment` cuts the *whole text* at `//`, it
-    parses as a fact, the session-fact interception (handler.rs:4515) stores it and returns — line 2 is never parsed -/
 def witRq : Req := ⟨some "adm", true, none, "m1(4) // x\n+m1(".toList⟩
-
-theorem C30_refuted : ¬ C30_statement := by
-  intro h
-  have h1 := h witP witW witRq (by decide)
-  revert h1
-  decide
-
-/-- **C30, partial theorem for `Handler::execute_program`.** Outside the two excluded input classes
-    (`intercepted`: the comment-cut whole text is a statement handled before validation;
-    `slowPath`: `?…` on a session holding ephemeral state) a syntax error anywhere in the program
-    means: rejected, state untouched — for every grammar, state, identity, session and target KG. -/
-theorem C30_partial (P : Parser) (w : World) (rq : Req)
-    (h : hasSyntaxError P rq.text = true) (hi : intercepted P w rq = false) (hs : slowPath w rq = false) :
-    (execProgram P w rq).w = w ∧ isErr (execProgram P w rq).res = true := by
-  have hrest : ∀ role curKg,
-      (execRest P w rq role (parseStatement P (trim rq.text)) (sessOf w rq) curKg).w = w ∧
-      isErr (execRest P w rq role (parseStatement P (trim rq.text)) (sessOf w rq) curKg).res = true := by
-    intro role curKg
-    apply execRest_reject P w rq role _ _ curKg h
-    · intro hsome st hst
-      unfold intercepted at hi
-      rw [hst] at hi
-      simp only [hsome, Bool.true_and, Bool.or_eq_false_iff] at hi
-      constructor
-      · intro hk; simp [hk] at hi
-      · intro hk; simp [hk] at hi
-    · intro se hse hq
-      unfold slowPath at hs
-      rw [hse, hq] at hs
-      simpa using hs
-    · intro se hse; exact sraw_found w rq se hse
-  generalize hsraw : (sessOf w rq) = sraw at hrest
-  unfold execProgram
-  simp only [hsraw]
-  split
-  · simp [isErr]
-  · split
-    · simp [isErr]
-    · have hfast : ∀ st, (if startsWithChar '.' (trim rq.text) = true then parseStatement P (trim rq.text) else none) = some st →
-          st.kind ≠ .sessionClear ∧ st.kind ≠ .userList ∧ st.kind ≠ .kgAclList ∧ st.kind ≠ .kgAclGrant ∧ st.kind ≠ .kgAclRevoke := by
-        intro st hst
-        by_cases hd : startsWithChar '.' (trim rq.text) = true
-        · simp only [hd, if_true] at hst
-          unfold intercepted at hi
-          rw [hst, hd] at hi
-          simp only [Bool.true_and, Bool.or_eq_false_iff] at hi
-          refine ⟨?_, ?_, ?_, ?_, ?_⟩ <;> intro hk <;> simp [hk] at hi
-        · simp [hd] at hst
-      split
-      · rename_i heq; exact absurd rfl (hfast _ heq).1
-      · rename_i heq; exact absurd rfl (hfast _ heq).2.1
-      · rename_i heq; exact absurd rfl (hfast _ heq).2.2.1
-      · rename_i heq; exact absurd rfl (hfast _ heq).2.2.2.1
-      · rename_i heq; exact absurd rfl (hfast _ heq).2.2.2.2
-      · split
-        · simp [isErr]
-        · split
-          · simp [isErr]
-          · exact hrest _ _
-      · exact hrest _ _
+example : hasSyntaxError witP witRq.text = true ∧ (execProgram witP witW witRq).w = witW ∧
+    (execProgram witP witW witRq).res = .err "parse" := by decide
+-- a one-statement program is still intercepted as a session fact
+example : (execProgram witP witW ⟨some "adm", true, none, "// c\nm1(4) // x".toList⟩).res = .msgs ["sfact"] none := by decide
 
 /-- grammar of the examples: two inserts and one unparsable line -/
 def exP : Parser := fun k =>
@@ -119,12 +75,4 @@ example : hasSyntaxError exP "+m1(5)\n+m1(".toList = true ∧
 example : hasSyntaxError exP "+m1(5) // a\n  \n+m1(6)".toList = false ∧
     (queryProgram exP witW (some "default") "+m1(5) // a\n  \n+m1(6)".toList).res = .msgs ["ins:1:m1", "ins:1:m1"] none ∧
     (findKg (queryProgram exP witW (some "default") "+m1(5) // a\n  \n+m1(6)".toList).w "default").map (relOf · "m1") = some [[.i64 5], [.i64 6]] := by decide
--- non-vacuity of the partial theorem: a two-line program with a syntax error, no session
-example : hasSyntaxError witP "m1(4)\n+m1(".toList = true ∧
-    intercepted witP witW ⟨some "adm", false, some "default", "m1(4)\n+m1(".toList⟩ = false ∧
-    slowPath witW ⟨some "adm", false, some "default", "m1(4)\n+m1(".toList⟩ = false := by decide
--- … and the refuting request is exactly in the excluded class
-example : intercepted witP witW witRq = true := by decide
-example : hasSyntaxError witP witRq.text = true ∧ (execProgram witP witW witRq).w ≠ witW := by decide
-
 end ILV.Props.C30
